@@ -234,7 +234,9 @@ def gen_case(rng, max_cards=40, audit_types=None, allow_style_off=True, max_roun
                        "refresh": bool(r > 0 and rng.chance(0.2)),
                        "rebuild": bool(r > 0 and variant != "continue" and rng.chance(0.15)),
                        "shuffle": rng.getrandbits(32)})
+    rehearsal = {"seed": rng.getrandbits(48), "frac": rng.pick([0.2, 0.5, 1.0])} if (not polling and rng.chance(0.2)) else None
     return {
+        "rehearsal": rehearsal,
         "world": world, "cvrs": cvrs, "cards": [{k: c[k] for k in ("id", "tab", "batch", "pos")} for c in cards],
         "ballots": {c["id"]: c["ballot"] for c in cards} if polling else None,
         "batches": batches, "lost": lost, "mvr": mvr, "phantom_label": phantom_label,
@@ -258,6 +260,10 @@ def reducers(case, keep_rounds=1):
             continue
         c = copy.deepcopy(case)
         del c["rounds"][i]
+        yield c
+    if case.get("rehearsal"):
+        c = copy.deepcopy(case)
+        c["rehearsal"] = None
         yield c
     # rounds: no rebuild, redraw instead of continue
     for i, rnd in enumerate(case["rounds"]):
